@@ -1,4 +1,3 @@
-import pathlib
 from concurrent.futures import ThreadPoolExecutor, Future
 from typing import IO, TextIO
 
@@ -18,20 +17,20 @@ class TeeProcessor:
         self._executor.shutdown(wait=True)
         self._has_shutdown = True
 
-    def tee_pipe(
-        self, pipe: IO[bytes], stream: TextIO, file_name: pathlib.Path
-    ) -> Future:
-        return self._executor.submit(self._tee_pipe_run, pipe, stream, file_name)
+    def tee_pipe(self, pipe: IO[bytes], stream: TextIO, file: IO[bytes]) -> Future:
+        """
+        Copies everything read from `pipe` into `file` (an open, writable binary
+        file, which is closed at the end) and onto `stream`.
+        """
+        return self._executor.submit(self._tee_pipe_run, pipe, stream, file)
 
-    def _tee_pipe_run(
-        self, pipe: IO[bytes], stream: TextIO, file_name: pathlib.Path
-    ) -> None:
+    def _tee_pipe_run(self, pipe: IO[bytes], stream: TextIO, file: IO[bytes]) -> None:
         # Conductor's own stream may stop accepting data (e.g., when Conductor's
         # output is piped into a program that exits). We then stop forwarding
         # to it, but we must keep recording the output and draining the pipe;
         # otherwise the log would be incomplete and the task would block.
         stream_ok = True
-        with open(file_name, "wb") as file:
+        with file:
             while True:
                 # Read up to 4096 bytes at a time, but return as soon as we read
                 # some bytes.
